@@ -13,6 +13,7 @@ from sa.report import Ctx
 
 from .common import generic_sweeps
 
+from .graph_common import edge_wrapper_adjacency
 from .sat_common import _enclosing_block
 
 EXPLANATION = (
@@ -265,7 +266,15 @@ def check_floyd(ctx: Ctx):
     cfg = cfg_of(f.node)
     gv = GuardView(cfg)
     relax = [n for n in own_nodes(f.node) if isinstance(n, ast.If) and isinstance(n.test, ast.Compare) and isinstance(n.test.left, ast.BinOp) and isinstance(n.test.left.op, ast.Add)]
-    ctx.require(len(relax) == 1, "Floyd-Warshall relaxation not found")
+    ctx.require(len(relax) >= 1, "Floyd-Warshall relaxation not found")
+    ctx.count("relaxation sites in floyd_warshall", len(relax))
+    for one in relax:
+        _check_floyd_relaxation(ctx, f, cfg, gv, one)
+    _check_floyd_rest(ctx, f, cfg, gv, relax[0])
+
+
+def _check_floyd_relaxation(ctx, f, cfg, gv, one):
+    relax = [one]
     t = relax[0].test
     a, b = t.left.left, t.left.right  # dist[i][k], dist[k][j]
     ok = all(isinstance(x, ast.Subscript) and isinstance(x.value, ast.Subscript) for x in (a, b))
@@ -288,7 +297,10 @@ def check_floyd(ctx: Ctx):
     ctx.ob("C11-O5", "R19 LOOP-NEST-ROLE", f, "every ordered pair (i, j), the diagonal included, is relaxed for every intermediate vertex", ranges == ["range(n)"] * 3, f"loop ranges (innermost first) {ranges}: the negative-cycle verdict reads dist[i][i], so a cell range that skips the diagonal (or any ordered pair) leaves the verdict and the distances unrelaxed", node=relax[0])
     ok2 = ast.unparse(t.comparators[0]) == f"dist[{i_}][{j_}]" and isinstance(t.ops[0], ast.Lt) and any(ast.unparse(s) == f"dist[{i_}][{j_}] = dist[{i_}][{k1}] + dist[{k1}][{j_}]" for s in relax[0].body)
     ctx.ob("C11-O5", "R19 LOOP-NEST-ROLE", f, "relaxation compares and stores the same cell", ok2, "", node=relax[0])
-    loops = [x for x in own_nodes(f.node) if isinstance(x, ast.For) and x in ast.walk(f.node) and ast.unparse(x.iter) in ("range(n)",)]
+
+
+def _check_floyd_rest(ctx, f, cfg, gv, one):
+    t = one.test
     edge_stores = [x for x in own_nodes(f.node) if isinstance(x, ast.Assign) and isinstance(x.value, ast.Call) and ast.unparse(x.value.func) == "min" and ast.unparse(x.targets[0]).startswith("dist[")]
     ok3 = len(edge_stores) == 2 and all({ast.unparse(a_) for a_ in x.value.args} == {ast.unparse(x.targets[0]), "w"} for x in edge_stores)
     ctx.ob("C11-O5", "R18 SIBLING-AGREEMENT (policy)", f, "duplicate edges merge by minimum weight (both orientations when undirected)", ok3, "", node=f.node)
@@ -449,6 +461,8 @@ def check_loop_and_exit_shapes(ctx: Ctx):
     dele = [n for n in own_nodes(de.node) if isinstance(n, ast.Return) and isinstance(n.value, ast.Call) and ast.unparse(n.value.func) == "dijkstra"]
     okd = len(dele) == 1 and [ast.unparse(a) for a in dele[0].value.args] == ["source", "target", "lambda s: adj[s]"] and "target is not None" in dgv.guard_atoms(dcfg.node_of(dele[0]), stable_only=False)
     ctx.ob("C11-O1", "R14 GATE", de, "with a target dijkstra_edges hands the query (source, target, successor lists) to dijkstra; without one it runs the all-distances search", okd, "", node=dele[0] if dele else de.node)
+    for wname in ("bfs_edges", "dfs_edges"):
+        ctx.step(edge_wrapper_adjacency, "C11-O1", ctx.func("bfs", wname), wname)
     rp = ctx.func("utils.helpers", "reconstruct_path")
     wl = [n for n in own_nodes(rp.node) if isinstance(n, ast.While)]
     okr = len(wl) == 1 and [ast.unparse(x) for x in wl[0].body] == ["current = parent[current]", "path.append(current)"]
